@@ -41,6 +41,9 @@ class _T(object):
     @staticmethod
     def Tuple(*ts): return Ty('Tuple', *ts)
     @staticmethod
+    def NamedTuple(name, fields):
+        t = Ty('Tuple', *[f[1] for f in fields]); t.nt = NTClass(name, [f[0] for f in fields]); return t
+    @staticmethod
     def Set(k): return Ty('Set', k)
     @staticmethod
     def FnOrDict(k, v): return Ty('FnOrDict', k, v)
@@ -88,6 +91,13 @@ class PyStr(V):
 class Tup(V):
     def __init__(self, items): self.items = list(items)
     def __repr__(self): return 'Tup%r' % (self.items,)
+
+class NTClass(V):
+    """a collections.namedtuple class"""
+    def __init__(self, name, fields): self.name, self.fields = name, list(fields)
+
+class NTup(Tup):
+    def __init__(self, cls, items): Tup.__init__(self, items); self.cls = cls
 
 class PyList(V):
     """list whose length is concrete (elements symbolic); lives in a cell when mutated"""
